@@ -14,15 +14,15 @@ Core-only executable model. It mirrors the code that exists (defects included):
   look up `clients[proxy.clientId]`; found ⇒ `AddProxy` (proxy now points to that connection until THAT one closes) and
   hand the reply to it; not found ⇒ dropped ("Protocol Closed").
 * `BinaryServerProtocol.ProcessLockResultCommand` when `closed`: not inited ⇒ dropped; inited ⇒ `clients[own id]`
-  ⇒ `ProcessLockResultCommandLocked` of that one (which is the same function again for a binary connection). `Close`
-  drains the wills through `self.ProcessCommad` while `closed = true`, `inited = true` and `clients[id] = self` still
-  hold, so the immediate reply of a will command recurses without bound: `Dest.loop` = Go "fatal error: stack overflow".
-* Text wills are NEVER executed: `commandHandlerLock/Unlock` push the command with `CommandType` still
-  `COMMAND_WILL_LOCK/UNLOCK`; `TextServerProtocol.Close` pops each one and calls `self.ProcessCommad(command)`, whose
-  `COMMAND_WILL_LOCK/UNLOCK` case only converts the type and pushes the command into a fresh `willCommands` queue —
-  which nobody drains, because `Close` is idempotent. (The binary path converts the type at registration.)
-* `TextServerProtocol.ProcessLockResultCommand` pushes into `lockWaiter` whether closed or not (`Dest.parked` when
-  closed); `ProcessLockResultCommandLocked` first applies the late-reply filter `RequestId ≠ lockRequestId`.
+  ⇒ `ProcessLockResultCommandLocked` of that one (which is the same function again for a binary connection; a chain
+  that never reaches an open connection would be Go's "fatal error: stack overflow" = `Dest.loop`). `Close` removes its
+  own `clients[id]` entry BEFORE it drains the wills through `self.ProcessCommad` (repo commit a1e474f; before it the
+  entry was removed after the drain and the immediate reply of a will recursed for ever), clears `inited` after.
+* Text wills: `commandHandlerLock/Unlock` map the type to LOCK/UNLOCK at registration (commit 66bd35e; before it the
+  commands were re-queued by `Close` and never ran); `TextServerProtocol.Close` submits them through
+  `self.ProcessCommad`; `TextServerProtocol.ProcessLockResultCommand` on a closed connection drops the result.
+  `ProcessLockResultCommandLocked` first applies the late-reply filter `RequestId ≠ lockRequestId`.
+* A proxy carrying the all-zero id (its connection never announced one) is not looked up in `clients` (commit 5edcdb1).
 * A text LOCK blocks its handler goroutine in `<-lockWaiter`; a peer that goes away meanwhile is noticed only when the
   reply is written (`halfClosed`), and only then `server.handle` calls `Close`.
 * `server.handle`: read error (client EOF), protocol error (`ProcessParse` error) and `stream.Close()` by the server
@@ -99,7 +99,6 @@ inductive Dest where
   | dropped             -- "Protocol Closed": no connection / not inited / no such client id / unknown token
   | filtered            -- text late-reply filter (`RequestId ≠ lockRequestId`)
   | lost (d : Nat)      -- handed to blocked text connection d whose peer is gone: the write fails, d closes
-  | parked (d : Nat)    -- pushed into the `lockWaiter` of closed text connection d; never read
   | loop                -- unbounded recursion
   deriving DecidableEq, Repr
 
@@ -115,7 +114,7 @@ def recvN (s : Server) : Nat → Nat → Nat → Dest
       match x.kind with
       | .text =>
         if tok ≠ x.awaiting then .filtered
-        else if x.closed then .parked d
+        else if x.closed then .dropped
         else if x.halfClosed then .lost d
         else .to d
       | .binary =>
@@ -144,6 +143,8 @@ def route (s : Server) (tok : Nat) : Server × Dest :=
       | .self => (s, recv s o tok)
       | .conn d => (s, recv s d tok)
       | .default =>
+        if x.cid = 0 then (s, .dropped)   -- never announced an id
+        else
         match aget s.clients x.cid with
         | none => (s, .dropped)
         | some d =>
@@ -156,11 +157,10 @@ def route (s : Server) (tok : Nat) : Server × Dest :=
 def unadopt (c : Nat) (x : Conn) : Conn :=
   if x.target = .conn c then { x with target := .default } else x
 
-/-- `Close` of a binary connection pops the will queue from the head; each command is submitted to the engine through
-`self.ProcessCommad`, and if the engine answers inside that call the reply goes to `self.ProcessLockResultCommand` =
-the closed branch of `recvN` on `s₁` (`c` already marked closed, still inited and registered). Returns the submitted
-wills with the fate of their immediate reply (`none` = queued in the engine), and the fatal condition that stopped the
-loop, if any. -/
+/-- `Close` pops the will queue from the head; each command is submitted to the engine through `self.ProcessCommad`, and
+if the engine answers inside that call the reply goes to `self.ProcessLockResultCommand`. Binary: the closed branch of
+`recvN` on `s₁` (`c` already marked closed and unregistered, still inited). Returns the submitted wills with the fate of
+their immediate reply (`none` = queued in the engine), and the fatal condition that stopped the loop, if any. -/
 def drain (s₁ : Server) (c : Nat) : List Will → List (Nat × Option Dest) × Option Fatal
   | [] => ([], none)
   | w :: ws =>
@@ -173,6 +173,11 @@ def drain (s₁ : Server) (c : Nat) : List Will → List (Nat × Option Dest) ×
     else
       let r := drain s₁ c ws
       ((w.tok, none) :: r.1, r.2)
+
+/-- text: the closed connection drops every immediate reply -/
+def drainT : List Will → List (Nat × Option Dest)
+  | [] => []
+  | w :: ws => (w.tok, if w.imm then some .dropped else none) :: drainT ws
 
 def putOwners (m : List (Nat × Nat)) (c : Nat) : List Nat → List (Nat × Nat)
   | [] => m
@@ -190,31 +195,31 @@ inductive Out where
   | noop
   deriving DecidableEq, Repr
 
-/-- the record of a connection while its `Close` drains the wills: `closed = true`, own proxy re-pointed, the binary
-will queue taken out (`self.willCommands = nil`); a text connection gets its commands pushed back (see above) -/
+/-- the record of a connection while its `Close` drains the wills: `closed = true`, own proxy re-pointed, the will
+queue taken out (`self.willCommands = nil`) -/
 def closing (x : Conn) : Conn :=
-  { x with closed := true, target := .default, halfClosed := false,
-           wills := match x.kind with | .binary => [] | .text => x.wills }
+  { x with closed := true, target := .default, halfClosed := false, wills := [] }
 
 /-- the will loop of `Close` by protocol kind -/
 def drainK (s₁ : Server) (c : Nat) (x : Conn) : List (Nat × Option Dest) × Option Fatal :=
   match x.kind with
   | .binary => drain s₁ c x.wills
-  | .text => ([], none)   -- re-queued, never executed
+  | .text => (drainT x.wills, none)
 
-/-- `Close()` of open connection `c` (record `x`). `inited` is cleared and the registration removed only AFTER the
-wills ran (a text connection has neither field: its `inited` is constantly false). -/
+/-- `clients` after the closing connection removed its own registration (binary, inited, still registered as itself) -/
+def unregister (s : Server) (c : Nat) (x : Conn) : List (Nat × Nat) :=
+  if x.kind = .binary ∧ x.inited = true ∧ aget s.clients x.cid = some c then adel s.clients x.cid else s.clients
+
+/-- `Close()` of open connection `c` (record `x`): mark closed, re-point the proxies, unregister, drain the wills, clear
+`inited` (a text connection has neither `inited` nor a registration: its `inited` is constantly false). -/
 def doClose (s : Server) (c : Nat) (x : Conn) : Server × List (Nat × Option Dest) × Option Fatal :=
-  let s₁ : Server := { s with conns := (s.conns.map (unadopt c)).set c (closing x) }
+  let s₁ : Server := { s with conns := (s.conns.map (unadopt c)).set c (closing x), clients := unregister s c x }
   let r := drainK s₁ c x
   let toks := r.1.map (·.1)
   let s₂ : Server := { s₁ with engine := s.engine ++ toks.map (fun t => (c, t)), owner := putOwners s.owner c toks, dead := r.2 }
   match r.2 with
   | some _ => (s₂, r.1, r.2)
-  | none =>
-    ({ s₂ with conns := s₂.conns.set c { closing x with inited := false },
-               clients := if x.kind = .binary ∧ x.inited = true ∧ aget s.clients x.cid = some c then adel s.clients x.cid else s.clients },
-     r.1, none)
+  | none => ({ s₂ with conns := s₂.conns.set c { closing x with inited := false } }, r.1, none)
 
 /-! ### events -/
 inductive Cause where
